@@ -83,6 +83,8 @@ func init() {
 	RegisterSpec(&Spec{
 		ID: "C13", Title: "Backtracking is invisible: failed alternatives consume nothing",
 		Rules: []RuleRef{
+			{"grammar", "G9", 5, "a look-ahead gate commits only to an alternative that can start with what it saw: an ordered choice behaves like trying the alternatives in order"},
+			{"txn", "X8", 10, "a failed alternative leaves nothing behind in the result either: its partial nodes are dropped with its input"},
 			{"txn", "X1", 13, "every Snapshot is matched by exactly one Rollback/Commit on every path; never popped without being taken"},
 			{"txn", "X2", 13, "when a failed sub-parser is swallowed (another alternative tried, or success returned) the input is back where it started"},
 			{"txn", "X3", 13, "input consumed by a sub-parser whose result is returned is not rolled back"},
@@ -97,6 +99,7 @@ func init() {
 	RegisterSpec(&Spec{
 		ID: "C18", Title: "Frames are isolated under any growth: a variable holds its last written value",
 		Rules: []RuleRef{
+			{"strw", "S2", 15, "a read resolves to the own frame, the immediately enclosing frame or the global: never to an index of a frame that is not captured"},
 			{"vmshape", "O3", 1, "a captured frame is a live slice of the reallocating stack (known finding)"},
 			{"vmshape", "V8", 60, "a destroyed context is unregistered where it is freed: no context is handed to two live iterators (which would share one stack)"},
 			{"vmshape", "V16", 1, "a recycled context carries no children"},
@@ -117,6 +120,8 @@ func init() {
 	RegisterSpec(&Spec{
 		ID: "C03", Title: "Functions are pure: same arguments, same result, whatever happened before",
 		Rules: []RuleRef{
+			{"vmshape", "O1", 1, "array construction builds new values"},
+			{"valtab", "A1", 900, "a result never shares storage with an operand or an earlier result (array + clones)"},
 			{"vmshape", "O7", 2, "only MOV and INC write variables, locals through Set"},
 			{"strw", "S3", 20, "assignments inside a function write its own variables, never an outer one"},
 			{"vmshape", "V6", 50, "a resumed generator continues on its own memory"},
@@ -138,6 +143,9 @@ func init() {
 	RegisterSpec(&Spec{
 		ID: "C10", Title: "Values are immutable: operations never alter operands or program constants",
 		Rules: []RuleRef{
+			{"own", "O8", 20, "memory.Top hands out the frame itself"},
+			{"vmshape", "V7", 6, "function values capture a frame value of their own, not a shared header"},
+			{"vmshape", "V12", 2, "a string returned by read() is a value of its own (ReadString copies out of the reader's buffer)"},
 			{"bcai", "B10", 25, "constants of the data segment are typed operands, only read"},
 			{"vmshape", "V5", 3, "INC builds a new value"},
 			{"vmshape", "V3", 70, "every operator instruction applies the operator method of the checked table (no second, unchecked implementation is reachable from the VM)"},
@@ -152,6 +160,9 @@ func init() {
 	RegisterSpec(&Spec{
 		ID: "C16", Title: "All three run modes execute the same program the same way",
 		Rules: []RuleRef{
+			{"own", "O6", 2, "memory.Reset really resets"},
+			{"pipeline", "P11", 1, "every mode reports a parse error against the chunk it parsed"},
+			{"pipeline", "P10", 1, "script mode and the REPL hand the statement loop lines in the same form (no terminator): a multi-line statement is the same text in both"},
 			{"vmshape", "O6", 1, "the reset after a runtime error happens inside the VM, for every driver alike"},
 			{"pipeline", "P1", 2, "in every mode nothing is rewritten, compiled or run while the parse error is non-nil"},
 			{"pipeline", "P2", 4, "in every mode every statement of the parse result goes through STRewrite(empty table) -> ByteCode* -> Run"},
@@ -169,6 +180,7 @@ func init() {
 	RegisterSpec(&Spec{
 		ID: "C04", Title: "Lexical scoping and isolation: a call cannot disturb its caller",
 		Rules: []RuleRef{
+			{"grammar", "G8", 13, "an assignment is always an Assign node: x = x inside a function creates the function's own x"},
 			{"vmshape", "O3", 1, "captured frames are live slices of the stack (known finding)"},
 			{"own", "O4", 4, "a recycled context is re-initialised before use"},
 			{"own", "O8", 20, "a call frame holds exactly its own locals, nil-initialised"},
@@ -191,6 +203,11 @@ func init() {
 	RegisterSpec(&Spec{
 		ID: "C06", Title: "The front end is total: any text is parsed or rejected, in finite time",
 		Rules: []RuleRef{
+			{"grammar", "G9", 5, "no gate commits the parser to an alternative that must fail"},
+			{"pipeline", "P11", 1, "the caret line is cut out of the text that was parsed (offsets and text belong together)"},
+			{"txn", "X6", 6, "the transactional lexer hands the parser the spans the lexer measured, unedited (error spans lie inside the input)"},
+			{"grammar", "G8", 13, "transformers are total constructors"},
+			{"grammar", "G7", 1, "a malformed for loop is a parse error, not an abort later on"},
 			{"lexfsm", "L1", 10, "lexing terminates: at end of input every state emits, advances or fails"},
 			{"lexfsm", "L2", 60, "no lexer state aborts; the aborting end-of-input state is never called"},
 			{"lexfsm", "N2", 5, "every iteration of the lexer loop advances the scan position or ends the loop"},
@@ -211,9 +228,14 @@ func init() {
 	RegisterSpec(&Spec{
 		ID: "C07", Title: "Parsing follows the documented grammar: trees round-trip through source text",
 		Rules: []RuleRef{
+			{"pipeline", "P10", 1, "no line break is added or lost between reader and parser"},
+			{"pipeline", "P3", 2, "the text that is parsed is the text of the file: no line is split, dropped or edited by the reader"},
+			{"lexfsm", "N6", 1, "the lexer scans the text as given (no normalisation that changes string literals)"},
+			{"grammar", "G9", 5, "gates and the alternatives they guard agree (the grammar accepts what the documented BNF accepts)"},
+			{"grammar", "G8", 13, "every transformer builds the node of its construct from the parsed pieces, whatever they are: the tree is the program as written"},
 			{"grammar", "G3", 7, "five left-associative binary levels with the documented operator sets, prefix operators over index over atom; the transformers fold to the left"},
 			{"grammar", "G5", 19, "every grammar definition equals the documented grammar (statement and block layout, line breaks, array literals, parentheses add no node)"},
-			{"grammar", "G6", 2, "a literal stands for exactly the number its text spells: IntLit through the exact integer conversion, FloatLit through ParseFloat"},
+			{"grammar", "G6", 3, "a literal stands for exactly the number its text spells: IntLit through the exact integer conversion, FloatLit through ParseFloat"},
 			{"grammar", "G4", 14, "each transformer builds exactly one node of the documented kind from what its rule parses"},
 			{"grammar", "T2", 20, "every documented operator is lexable, wrapped and compiled"},
 			{"grammar", "T3", 30, "every literal the grammar expects is a single token of the lexer"},
@@ -227,6 +249,9 @@ func init() {
 	RegisterSpec(&Spec{
 		ID: "C01", Title: "Compiled execution matches the definitional semantics of the language",
 		Rules: []RuleRef{
+			{"grammar", "G8", 13, "the tree that is compiled is the program as written (no rewriting while parsing)"},
+			{"pipeline", "P2", 4, "every statement of the input is rewritten, compiled and run"},
+			{"vmshape", "V19", 2, "aton is the documented conversion"},
 			{"vmshape", "V12", 2, "read takes the next line of standard input"},
 			{"vmshape", "V11", 2, "write has its effect when it is executed: the value goes straight to standard output"},
 			{"own", "O8", 20, "frames are laid out as the call protocol expects"},
@@ -273,6 +298,7 @@ func init() {
 	RegisterSpec(&Spec{
 		ID: "C02", Title: "for loops consume exactly what their iterators yield, lazily and in order",
 		Rules: []RuleRef{
+			{"grammar", "G7", 1, "a loop binds as many variables as it has iterators"},
 			{"vmshape", "V7", 6, "generator calls follow the call protocol inside their context"},
 			{"own", "O8", 20, "a forked iterator context starts with exactly the creator's frame"},
 			{"own", "O4", 4, "a recycled iterator context is re-initialised before use"},
@@ -293,6 +319,9 @@ func init() {
 	RegisterSpec(&Spec{
 		ID: "C05", Title: "No accepted program can crash the interpreter; failures are calc runtime errors",
 		Rules: []RuleRef{
+			{"own", "O6", 2, "memory.Reset empties the frame and closure stacks: stale frames after an error make the next fork slice out of range"},
+			{"vmshape", "V19", 2, "aton hands its argument text to the library conversions unedited (no indexing into a possibly empty string)"},
+			{"grammar", "G7", 1, "the parser refuses a for loop whose variable and iterator counts differ (the compiler aborts on one)"},
 			{"grammar", "G2", 4, "no Choose without a total alternative"},
 			{"lexfsm", "L2", 60, "no lexer state aborts"},
 			{"enc", "E2", 1, "operand fields cannot wrap into other indices"},
@@ -330,6 +359,8 @@ func init() {
 	RegisterSpec(&Spec{
 		ID: "C08", Title: "A session survives errors: a failed statement leaves no trace but its globals",
 		Rules: []RuleRef{
+			{"pipeline", "P2", 4, "after a failing statement the remaining statements of the same input are still executed, as they would be on separate lines"},
+			{"grammar", "G7", 1, "no statement the parser accepts makes the compiler abort the session: for loops have equal counts"},
 			{"vmshape", "V11", 1, "what a failed statement wrote is out before its error report: no output is carried into the next statement"},
 			{"vmshape", "V16", 1, "contexts destroyed by the reset are not reused with stale children"},
 			{"pipeline", "P7", 1, "a session is only resumed after errors that leave whole statements behind: no panic is recovered in the middle of a statement"},
@@ -348,6 +379,8 @@ func init() {
 	RegisterSpec(&Spec{
 		ID: "C09", Title: "Evaluation leaves the machine clean: no stack, frame or context residue",
 		Rules: []RuleRef{
+			{"own", "O6", 2, "after a failure the memory is back to empty"},
+			{"pipeline", "P2", 4, "statements are run one by one"},
 			{"vmshape", "V6", 50, "contexts are switched, not leaked"},
 			{"vmshape", "V15", 1, "context keys are injective: destroying a range destroys exactly that loop's contexts"},
 			{"own", "O8", 20, "a forked or recycled context starts with exactly the creator's top frame: no frames of a previous life are kept"},
@@ -371,6 +404,9 @@ func init() {
 	RegisterSpec(&Spec{
 		ID: "C12", Title: "An expression means the same wherever it is written",
 		Rules: []RuleRef{
+			{"valtab", "A3", 60, "== is symmetric in every position"},
+			{"valtab", "A1", 900, "an operator is a function of its operand values (no identity shortcuts): e op e is t op t"},
+			{"grammar", "G8", 13, "!(a < b), x = x and every other construct become the node of that construct in every position"},
 			{"bcai", "B10", 25, "typed operands"},
 			{"vmshape", "V3", 70, "the same operator method in every code-generation strategy (plain, TMP variant, INC)"},
 			{"bcai", "B5", 25, "operands are compiled in source order whatever the position"},
@@ -391,6 +427,7 @@ func init() {
 	RegisterSpec(&Spec{
 		ID: "C17", Title: "Built-in functions keep their contracts for every argument",
 		Rules: []RuleRef{
+			{"vmshape", "V19", 2, "aton reads a decimal integer, else a float, from exactly its argument text"},
 			{"valtab", "A1", 900, "aton / toa and the operators the builtins use follow the documented table"},
 			{"vmshape", "V12", 2, "read takes whole lines from one buffered reader that outlives the instruction"},
 			{"vmshape", "V11", 2, "toa and write render through value.Type.String"},
@@ -408,6 +445,7 @@ func init() {
 	RegisterSpec(&Spec{
 		ID: "C19", Title: "Runtime error reports point at the real failure",
 		Rules: []RuleRef{
+			{"pipeline", "P11", 1, "parse errors are shown against the text they refer to"},
 			{"vmshape", "V7", 6, "the return address is pushed where the dump reads it"},
 			{"bcai", "B3", 25, "the code position of an instruction is stable (code is only appended): the ip in a report names the failing instruction"},
 			{"strw", "S2", 15, "a resolved reference keeps the name of its variable (the debug info of a call names the callee from it)"},
@@ -429,6 +467,11 @@ func init() {
 	RegisterSpec(&Spec{
 		ID: "C14", Title: "Tokenisation is faithful to the text",
 		Rules: []RuleRef{
+			{"txn", "X6", 6, "the parser sees each token exactly as the lexer produced it"},
+			{"pipeline", "P6", 50, "nothing edits the text between reader and lexer"},
+			{"pipeline", "P10", 1, "lines reach the lexer without extra line breaks"},
+			{"pipeline", "P4b", 1, "statement boundaries are computed on exactly the text that is parsed"},
+			{"pipeline", "P3", 2, "the driver hands the lexer every line it read, unedited"},
 			{"lexfsm", "L1", 10, "the lexer reaches the end of every input (needed for 'the stream ends with EOL then EOF')"},
 			{"lexfsm", "L2", 60, "every transition has a successor state; the end-of-input state is never called"},
 			{"lexfsm", "L3", 200, "documented token structure: start characters, longest operator run, one-character brackets, one EOL per line break, skipped text is blanks/comments only"},
